@@ -407,6 +407,8 @@ func keepsFrame(op compiler.Opcode) bool {
     ensures @member-anyobj instruction.Opcode() == compiler.Opcode_Member_Anyobj ==> self.peek(0).Kind() == value.OptionValueKind
     ensures @unwrap-none instruction.Opcode() == compiler.Opcode_Member_Unwrap ==> (result != nil <==> old(self.peek(0)).(value.ValueOption).Inner == nil)
     ensures @some instruction.Opcode() == compiler.Opcode_Some ==> self.peek(0).Kind() == value.OptionValueKind && self.peek(0).(value.ValueOption).Inner != nil && *self.peek(0).(value.ValueOption).Inner == old(self.peek(0))
+    ensures @some-unshared instruction.Opcode() == compiler.Opcode_Some ==> fresh(self.peek(0).(value.ValueOption).Inner) && fresh(self.Stack[len(self.Stack)-1])
+    ensures @clone-unshared result == nil && instruction.Opcode() == compiler.Opcode_Clone ==> len(self.Stack) > 0 && fresh(self.Stack[len(self.Stack)-1]) && self.peek(0).Kind() == old(self.peek(0).Kind())
 @*/
 
 // termination: i is a termination interrupt.
